@@ -134,6 +134,16 @@ theorem run_fixed {s t : State} {sched : List Action} (hr : run s sched = some t
     | none => simp [hsa] at hr
     | some s' => simp only [hsa] at hr; rw [ih hr, step_fixed hsa]
 
+theorem run_append {s : State} {as bs : List Action} :
+    run s (as ++ bs) = (run s as).bind (fun t => run t bs) := by
+  induction as generalizing s with
+  | nil => simp [run]
+  | cons a as ih =>
+    simp only [List.cons_append, run]
+    cases step s a with
+    | none => simp
+    | some s' => simpa using ih
+
 /-- `k` sends in a row -/
 theorem run_sends (s : State) (k : Nat) (h1 : k ≤ s.l.rem) (h2 : s.l.q + k ≤ cap) (h3 : s.l.aborted = false)
     (h4 : s.l.closed = false) :
